@@ -107,6 +107,7 @@ type c15Space struct {
 	BL      int  `json:"bl"`
 	Dir     int  `json:"dir"`     // 0 = d1 (dbDirs[0]), 1 = d2
 	Removed bool `json:"removed"` // false: in use before the request; true: indexed but removed (RemoveWS)
+	Deleted bool `json:"deleted"` // was in use, then deleted through DeleteWS before the request (its files are gone)
 }
 
 type c15Op struct {
@@ -475,7 +476,7 @@ func (x *c15Runner) run(c c15Case, root *c15Root) (outcome string) {
 	dirs := []string{filepath.Join(root.dir, "d1"), filepath.Join(root.dir, "d2")}
 	var kb strings.Builder
 	for _, e := range c.Existing {
-		fmt.Fprintf(&kb, "%d/%d,", e.BL, e.Dir)
+		fmt.Fprintf(&kb, "%d/%d/%v,", e.BL, e.Dir, e.Deleted)
 	}
 	key := kb.String()
 	if root.baseline == nil || root.key != key || !c15SameList(c15List(dirs), root.baseline) {
@@ -532,13 +533,22 @@ func (x *c15Runner) run(c c15Case, root *c15Root) (outcome string) {
 			if _, ok := known[sid]; !ok {
 				vk.Fatalf("C15 setup: space %s not on disk", sid)
 			}
-			if e.Removed {
+			if e.Deleted {
+				if err := sk.DeleteWS(sid); err != nil {
+					vk.Fatalf("C15 setup DeleteWS: %v", err)
+				}
+			} else if e.Removed {
 				if err := sk.RemoveWS(sid); err != nil {
 					vk.Fatalf("C15 setup RemoveWS: %v", err)
 				}
 			} else {
 				usedBefore[sid] = true
 			}
+		}
+		// what is on disk now (a deleted space is gone)
+		known, odd = c15Spaces(c15List(dirs))
+		if len(odd) > 0 {
+			vk.Fatalf("C15 setup: odd files after setup: %v", odd)
 		}
 	}
 
@@ -890,6 +900,9 @@ func c15Multisets(maxN int, withStatus bool) [][]c15Space {
 		for d := 0; d < 2; d++ {
 			if withStatus {
 				types = append(types, c15Space{BL: bl, Dir: d, Removed: false}, c15Space{BL: bl, Dir: d, Removed: true})
+				if bl <= 26 {
+					types = append(types, c15Space{BL: bl, Dir: d, Deleted: true})
+				}
 			} else {
 				types = append(types, c15Space{BL: bl, Dir: d})
 			}
